@@ -581,7 +581,7 @@ theorem annot_eq (e : Expr) :
 
 /-- tokens an expression's output can end with (and `[`, after which anything may follow) -/
 def endTok : Tok → Bool
-  | .id _ | .kw _ | .bin _ | .estr _ | .rp | .rb | .lb | .int _ | .real _ => true
+  | .id _ | .kw _ | .bin _ | .estr _ | .str _ | .rp | .rb | .lb | .int _ | .real _ => true
   | _ => false
 
 def EndO (lt : Option Tok) : Prop := ∀ t, lt = some t → endTok t = true
